@@ -260,20 +260,32 @@ def run(rep, tier, seed, replay=None, proof_ok=True):
                 rep.bump(name + ('_same' if same else '_differs'))
                 if same:
                     continue
-                # does the model predict exactly this difference through a recorded quirk?
-                m0 = model.ask('instproj', [q, d0])
-                m1 = model.ask('instproj', [q, d1])
-                s0 = model.ask('instproj', ['000', d0])
-                s1 = model.ask('instproj', ['000', d1])
-                explained = (m0 == 'ok ' + sexp.dumps(p0) and m1 == 'ok ' + sexp.dumps(p1))
-                spec_same = (s0 == s1) if name == 'alpha' else True
-                if explained and name == 'alpha' and spec_same:
-                    rep.bump('alpha_known_quirk')
-                    continue
-                if explained and name == 'alpha' and not spec_same:
-                    # the renaming itself captured something even in the specification: bad experiment
-                    rep.bump('alpha_experiment_invalid')
-                    continue
+                # model-only classification of the input pair (independent of impl/model agreement):
+                # is the renaming valid in the specification, and does a recorded quirk alone already
+                # produce a difference on this pair (then the experiment is masked by the known finding)?
+                explained = None
+                if name == 'alpha':
+                    s0 = model.ask('instproj', [ic.SPEC, d0])
+                    s1 = model.ask('instproj', [ic.SPEC, d1])
+                    m0 = model.ask('instproj', [q, d0])
+                    m1 = model.ask('instproj', [q, d1])
+                    if s0 != s1:
+                        rep.bump('alpha_experiment_invalid')
+                        continue
+                    if m0 != m1 and m0.startswith('ok ') and m1.startswith('ok '):
+                        # block-wise: a block is masked only if the recorded quirk itself changes it
+                        mb0 = blocks(sexp.loads(m0[3:]))
+                        mb1 = blocks(sexp.loads(m1[3:]))
+                        c0 = blocks(sexp.loads(sexp.dumps(p0)))
+                        c1 = blocks(sexp.loads(sexp.dumps(p1)))
+                        bad = [key for key in c0 if c0.get(key) != c1.get(key) and mb0.get(key) == mb1.get(key)]
+                        if not bad:
+                            rep.bump('alpha_masked_by_known_quirk')
+                            continue
+                        rep.bump('alpha_unmasked_block_differs')
+                    elif m0 != m1:
+                        rep.bump('alpha_masked_by_known_quirk')
+                        continue
                 if shown < 3:
                     shown += 1
                     rep.violation({'kind': 'counterexample', 'what': 'instantiation depends on %s' % name,
